@@ -659,6 +659,11 @@ class Engine:
     def _input_model(self, model, extra=None, nice=True):
         """input name -> encoded value under `model`; tries to make decimal-
         flavoured inputs decimal-representable."""
+        if self.hints and extra is not None:
+            # stubs may have left hints about which values make their chosen outcome real
+            r, mh = self._query([extra] + list(self.hints), min(self.feas_ms, 1500))
+            if r == 'sat':
+                model = mh
         out = {}
         bad = False
         for name, (kind, var, flav) in self.inputs.items():
